@@ -552,6 +552,17 @@ CONSTEXPR_USES_FREE = [
 ]
 
 
+# every rep narrower than int (arithmetic happens in int: a brace-initialised or implicitly narrowed
+# result is an error for one compiler and a warning for the other) x the conversion paths
+CONSTEXPR_USES_SUBINT = [e % dict(R=r) for r in ("std::int8_t", "std::uint8_t", "std::int16_t", "std::uint16_t") for e in (
+    "inches(%(R)s{10}).coerce_in(centi(meters))", "inches(%(R)s{10}).coerce_as(centi(meters))", "yards(%(R)s{100}).template coerce_in<%(R)s>(meters)",
+    "inches(%(R)s{24}).coerce_in(feet)", "feet(%(R)s{3}).coerce_in(inches)", "feet(%(R)s{3}).template as<%(R)s>(yards)",
+    "will_conversion_truncate(inches(%(R)s{25}), feet)", "is_conversion_lossy(inches(%(R)s{24}), feet)", "will_conversion_overflow(feet(%(R)s{30}), inches)",
+    "is_conversion_lossy(inches(%(R)s{10}), centi(meters))", "is_conversion_lossy<%(R)s>(inches(10), feet)",
+    "feet(%(R)s{25}) %% feet(%(R)s{7})", "feet(%(R)s{1}) + feet(%(R)s{3})", "-feet(%(R)s{1})", "feet(%(R)s{6}) * %(R)s{2}", "feet(%(R)s{6}) / %(R)s{2}",
+    "feet(%(R)s{6}) / feet(%(R)s{2})", "meters_pt(%(R)s{1}).coerce_in(centi(meters_pt))", "rep_cast<%(R)s>(feet(300)).in(feet)")]
+
+
 def odr_definitions(ctx, headers):
     """Before C++17 a static constexpr data member that is ODR-used (bound to a reference, passed to
     a `const T&` parameter) needs a definition at namespace scope; from C++17 on the in-class
@@ -778,7 +789,7 @@ def constexpr_parity(ctx):
     inside a constant expression changed between the standards; the library promises C++14.)"""
     prelude = (witness.DEFAULT_PRELUDE + "#include <chrono>\n#include <cstdint>\n#include \"au/math.hh\"\n#include \"au/units/feet.hh\"\n#include \"au/units/inches.hh\"\n#include \"au/units/yards.hh\"\n"
                "#include \"au/units/meters.hh\"\n#include \"au/units/seconds.hh\"\n#include \"au/units/hertz.hh\"\n#include \"au/units/celsius.hh\"\n#include \"au/units/kelvins.hh\"\nusing namespace au;\n")
-    uses = CONSTEXPR_USES + CONSTEXPR_USES_MEMBERS + CONSTEXPR_USES_FREE
+    uses = CONSTEXPR_USES + CONSTEXPR_USES_MEMBERS + CONSTEXPR_USES_FREE + CONSTEXPR_USES_SUBINT
     free = api_free_functions(ctx)
     ctx.require(len(free) >= 50, "only %d constexpr free functions found in namespace au" % len(free))
     tbl = "\n".join(uses)
@@ -792,6 +803,10 @@ def constexpr_parity(ctx):
     prelude += PARITY_HELPERS
     items = [witness.Item("cx:%d:%s" % (i, e), "constexpr auto cxv_%d = (%s); static_assert(sizeof(cxv_%d) > 0, \"\");" % (i, e, i), "accept", None,
                           dict(desc="`constexpr auto v = %s;`" % e)) for i, e in enumerate(uses)]
+    # the sub-int expressions also as ordinary (run-time) uses: what one compiler only warns about
+    # outside a constant expression, the other refuses
+    items += [witness.Item("use:%d:%s" % (i, e), "auto usev_%d() { return (%s); }" % (i, e), "accept", None,
+                           dict(desc="`auto f() { return %s; }`" % e)) for i, e in enumerate(CONSTEXPR_USES_SUBINT)]
     results, stats = witness.judge(ctx, items, cxx.ALL_CONFIGS, prelude=prelude, batch=40, tag="c20cx")
     nacc = 0
     for it in items:
@@ -805,7 +820,8 @@ def constexpr_parity(ctx):
             nacc += 1
     # an expression that no configuration accepts is a slip in this table, not in the library
     dead = [it.meta["desc"] for it in items if all(v.rejected for v in results[it.key].values())]
-    ctx.require(not dead, "constexpr parity: %d expressions are rejected by every configuration, e.g. %s" % (len(dead), dead[:2]))
+    if not ctx.violations:
+        ctx.require(not dead, "constexpr parity: %d expressions are rejected by every configuration, e.g. %s" % (len(dead), dead[:2]))
     ctx.require(nacc >= 100, "constexpr parity: only %d expressions accepted" % nacc)
     return dict(expressions=len(items), api_members_covered=len(members), api_free_functions_covered=len(free) - len([n for n in free if n in FREE_NOT_IN_TABLE]), api_free_functions_excused=sorted(n for n in free if n in FREE_NOT_IN_TABLE), accepted_everywhere=nacc, rejected_everywhere=dead, configs=len(cxx.ALL_CONFIGS))
 
@@ -836,7 +852,7 @@ def body(ctx):
         rule="rule instances of R1..R6 over every non-test header (counted per header / include / line / conditional), "
              "forward-declared records matched by clang-query, one program per (header, alone|twice) and per random all-headers "
              "order per configuration, per generated single file: 2 TUs per configuration + IR link, and one DAG comparison per "
-             "API-surface wrapper per packaging/standard pair; one constant-expression use per API operation judged under all six configurations (accepted / refused alike); every public static constexpr data member paired with its namespace-scope definition (C++14 ODR), and a C++14 module binding the documented ones to references must define every au:: global it references; every au function whose name std also declares called under both using-directives with identical and mixed operand types, all six configurations",
+             "API-surface wrapper per packaging/standard pair; one constant-expression use per API operation judged under all six configurations (accepted / refused alike), the conversion paths and operators also for every rep narrower than int and also as ordinary run-time uses; every public static constexpr data member paired with its namespace-scope definition (C++14 ODR), and a C++14 module binding the documented ones to references must define every au:: global it references; every au function whose name std also declares called under both using-directives with identical and mixed operand types, all six configurations",
         samples=[dict(rule="R1", header=headers[0]), dict(matrix="alone:%s" % headers[3]),
                  dict(single_file_selection="surface_io", args=["--units", "meters", "seconds", "hertz"]),
                  dict(api_surface="s_lossy compared as normalised IR DAG between single file and tree")],
